@@ -23,3 +23,12 @@ Definition layout_ok (c : lcase) : option nat :=
          | Some (v, s) => if val_eqb v (lc_val c) && (s =? lc_size c) then None else Some 5%nat
          end
   end.
+
+(* objects that hold references have no contiguous image: they are judged by the strict decoder
+   alone, run on the whole buffer (targets live elsewhere in it) *)
+Record hcase := mkHC { hc_ty : ty; hc_val : val; hc_mem : list Z; hc_off : Z; hc_size : Z }.
+Definition heap_ok (c : hcase) : option nat :=
+  match dec (hc_ty c) (hc_mem c) (hc_off c) with
+  | None => Some 4%nat
+  | Some (v, s) => if val_eqb v (hc_val c) && (s =? hc_size c) then None else Some 5%nat
+  end.
